@@ -376,6 +376,7 @@ def run_waits(ctx, desc):
 def run(ctx, desc):
     rigs.LogCapture()
     oracles.install_pdo_bits(ctx, prefix="ambient_pdo_bits")
+    oracles.install_pdo_structure(ctx, prefix="ambient_pdo_structure")
     if desc["kind"] == "waits":
         run_waits(ctx, desc)
         return
